@@ -6,7 +6,7 @@ Import C08_spec C08_proofs.
 (* after the imports the names spec / check / spec_run / model / path are C08's: the C15 ones are qualified *)
 
 Definition wf_clients (cl : list client) : bool := forallb (fun k => nonempty (c_id k)) cl.
-Definition wf_input (i : hist_input) : bool := match i with Hist cl _ => wf_clients cl end.
+Definition wf_input (i : hist_input) : bool := match i with Hist cl _ _ => wf_clients cl end.
 
 Lemma wf_no_empty_id cl : wf_clients cl = true -> find_client cl "" = None.
 Proof.
@@ -80,11 +80,12 @@ Definition actor_read (g : store) (actor : option (tokstr * ttype)) : option (si
 (* what the model answers when all guards of exchange passed *)
 Definition success_result (g : store) (nx : nat) (k : client) (ssub asub : string) (req : ttype)
     (scopes aud : list string) : option (st * out) :=
-  let sc := drop_scopes scopes in
+  let sc := decided_scopes (policy g) scopes in
+  let ssub := decided_subject (policy g) ssub in
   let t := TRec (c_id k) ssub asub sc aud (c_exp k) in
   let acc n := if c_jwt k then XJwt (AT n) ssub else XOpaque (AT n) ssub in
-  match req with
-  | TAccess | TAbsent => Some ((add_at (nx + 1) t g, nx + 1), OExch TAccess (acc (nx + 1)) NoId false sc (Some t))
+  match effective_type (policy g) req with
+  | TAccess => Some ((add_at (nx + 1) t g, nx + 1), OExch TAccess (acc (nx + 1)) NoId false sc (Some t))
   | TRefresh => Some ((add_at_rt (nx + 1) (nx + 2) t g, nx + 2), OExch TRefresh (acc (nx + 2)) (RT (nx + 1)) true sc (Some t))
   | TId => Some ((g, nx), OExch TId (XIdTok ssub (c_id k)) NoId false sc None)
   | _ => None
@@ -110,7 +111,9 @@ Proof.
     [destruct req, r; discriminate|].
   destruct (string_in "veto" scopes) eqn:V; [destruct req, r; discriminate|].
   intro H. exists k, id, ssub, aid, asub, atyp'. repeat (split; [reflexivity|]).
-  unfold success_result. destruct req; try discriminate; now rewrite <- H.
+  unfold success_result. destruct req; try discriminate;
+    match type of H with context [effective_type ?p ?q] => destruct (effective_type p q) end;
+    try discriminate; now rewrite <- H.
 Qed.
 
 Lemma actor_read_subject g actor aid asub atyp : actor_read g actor = Some (aid, asub, atyp) ->
@@ -138,7 +141,8 @@ Lemma declared_is_contained cl r g nx c subj styp actor req scopes aud s' i x rt
   wf_clients cl = true ->
   exchange cl r (g, nx) c subj styp actor req scopes aud = (s', OExch i x rt lv sc sto) ->
   let want := C15_spec.decided cl g c subj styp actor scopes aud in
-  sc = drop_scopes scopes /\
+  sc = decided_scopes (policy g) scopes /\
+  i = effective_type (policy g) req /\
   C15_spec.contained want i x rt lv sto = true /\
   (forall t, sto = Some t -> t = want /\ exists n, (x = XOpaque (AT n) (tr_sub want) \/ x = XJwt (AT n) (tr_sub want)) /\
                                    find_tok n (toks (fst s')) = Some t) /\
@@ -146,14 +150,15 @@ Lemma declared_is_contained cl r g nx c subj styp actor req scopes aud s' i x rt
 Proof.
   intros W E want. apply exchange_ok_full in E as (k & id & ssub & aid & asub & atyp & A & RS & RA & V & SR).
   destruct (exch_auth_ok _ _ _ _ W A) as (_ & IDK & FK).
-  assert (WT : want = TRec (c_id k) ssub asub (drop_scopes scopes) aud (c_exp k)).
+  assert (WT : want = TRec (c_id k) (decided_subject (policy g) ssub) asub (decided_scopes (policy g) scopes) aud (c_exp k)).
   { subst want. unfold C15_spec.decided. rewrite (read_x_subject _ _ _ _ _ RS), (actor_read_subject _ _ _ _ _ RA).
     unfold expired_of. now rewrite FK, IDK. }
   rewrite WT. clear WT want.
   unfold success_result in SR. cbv zeta in SR.
-  set (t := TRec (c_id k) ssub asub (drop_scopes scopes) aud (c_exp k)) in *.
-  change ssub with (tr_sub t) in SR. change (c_id k) with (tr_client t) in SR.
-  destruct req; try discriminate; injection SR as <- <- <- <- <- <- <-; (split; [reflexivity|]).
+  set (t := TRec (c_id k) (decided_subject (policy g) ssub) asub (decided_scopes (policy g) scopes) aud (c_exp k)) in *.
+  change (decided_subject (policy g) ssub) with (tr_sub t) in SR. change (c_id k) with (tr_client t) in SR.
+  destruct (effective_type (policy g) req); try discriminate; injection SR as <- <- <- <- <- <- <-;
+    (split; [reflexivity|]); (split; [reflexivity|]).
   - split; [apply contained_access|]. split; [|intros m [=]].
     intros t0 [= <-]. split; [reflexivity|]. exists (nx + 1). split; [destruct (c_jwt k); auto|].
     cbn [fst add_at toks find_tok]. now rewrite Nat.eqb_refl.
@@ -162,9 +167,6 @@ Proof.
       cbn [fst add_at_rt toks find_tok]. now rewrite Nat.eqb_refl.
     + intros m [= <-]. cbn [fst add_at_rt rtoks find_rt r_id]. now rewrite Nat.eqb_refl.
   - split; [apply contained_id|]. split; [intros t0 [=]|intros m [=]].
-  - split; [apply contained_access|]. split; [|intros m [=]].
-    intros t0 [= <-]. split; [reflexivity|]. exists (nx + 1). split; [destruct (c_jwt k); auto|].
-    cbn [fst add_at toks find_tok]. now rewrite Nat.eqb_refl.
 Qed.
 
 Lemma subj_live_read g typ t : subj_live g typ t = true ->
@@ -215,7 +217,8 @@ Proof.
   assert (NA : match r, styp with Prov, TAbsent => true | _, _ => false end = false).
   { destruct r; [|reflexivity]. destruct styp; try reflexivity. discriminate. }
   rewrite NA, A, GX. cbn [negb]. rewrite RS, RA, LS. cbn [negb]. rewrite LA, PV.
-  destruct req; try discriminate; repeat eexists.
+  unfold C15_spec.issuable in PR.
+  destruct req; try discriminate; destruct (effective_type (policy g) _); try discriminate; repeat eexists.
 Qed.
 
 Lemma exchange_shape cl r s c subj styp actor req scopes aud :
@@ -232,6 +235,13 @@ Proof.
   intros U E. pose proof (check_step cl s o U) as C. rewrite E in C. now destruct o.
 Qed.
 
+Lemma exchange_ok_issuable cl r g nx c subj styp actor req scopes aud s' i x rt lv sc sto :
+  exchange cl r (g, nx) c subj styp actor req scopes aud = (s', OExch i x rt lv sc sto) ->
+  C15_spec.issuable (policy g) req = true.
+Proof.
+  intro E. unfold C15_spec.issuable. unfold exchange, client_err_leg in E. leaves E; reflexivity.
+Qed.
+
 Lemma check15_step cl s o : wf_clients cl = true -> op_unconfused o = true ->
   C15_spec.check cl (fst s) o (snd (step cl s o)) = true.
 Proof.
@@ -243,11 +253,11 @@ Proof.
   pose proof (exchange_shape cl r (g, nx) c subj styp actor req scopes aud) as SH. cbn zeta in SH. rewrite E in SH. cbn [snd] in SH.
   destruct SH as [(i & a & rt & lv & sc & sto & ->)|(st & -> & IE)].
   - destruct (exchange_live _ _ _ _ _ _ _ _ _ _ _ _ _ _ _ _ _ U E) as [SL AL]. cbn [fst] in SL, AL.
-    destruct (declared_is_contained _ _ _ _ _ _ _ _ _ _ _ _ _ _ _ _ _ _ W E) as (SC & CT & _).
+    destruct (declared_is_contained _ _ _ _ _ _ _ _ _ _ _ _ _ _ _ _ _ _ W E) as (SC & _ & CT & _).
+    pose proof (exchange_ok_issuable _ _ _ _ _ _ _ _ _ _ _ _ _ _ _ _ _ _ E) as IS.
     pose proof E as E2. apply exchange_ok_full in E2 as (k & id & ssub & aid & asub & atyp & A & _ & _ & V & SR).
     destruct (exch_auth_ok _ _ _ _ W A) as (CK & _).
-    cbn [C15_spec.check]. rewrite CK, SL, AL, V, CT, SC, strs_eqb_refl. cbn.
-    unfold success_result in SR. now destruct req.
+    cbn [C15_spec.check]. rewrite CK, SL, AL, V, CT, SC, IS, strs_eqb_refl. reflexivity.
   - cbn [C15_spec.check]. rewrite IE. cbn.
     destruct (C15_spec.promised cl g c subj styp actor req scopes) eqn:P; [|reflexivity].
     destruct (promised_succeeds cl r g nx _ _ _ _ _ _ aud P) as (s2 & i & a & rt & lv & sc & sto & E2).
@@ -266,13 +276,13 @@ Qed.
 
 Theorem spec15_model_partial : forall i, wf_input i = true -> unconfused i = true ->
   C15_spec.spec i (C15_spec.model i) = true.
-Proof. intros [cl ops] W U. exact (spec15_run_model cl W (located ops) init U). Qed.
+Proof. intros [cl pol ops] W U. exact (spec15_run_model cl W (located ops) (init pol) U). Qed.
 
 Theorem spec15_model_refuted : exists i, wf_input i = true /\ C15_spec.spec i (C15_spec.model i) = false.
 Proof. exists refuting_history. split; vm_compute; reflexivity. Qed.
 
 Example spec15_model_partial_nonvacuous :
-  let i := Hist refuting_clients
+  let i := Hist refuting_clients refstore_policy
     [(0, true, Issue Leg "web2" "bob" ["openid"; "offline_access"]);
      (0, true, Exchange Prov (Basic "web" "web-secret") (PRaw (RT 2)) TRefresh
        (Some (PJwt 0 true false (AT 3) "bob" "", TAccess)) TRefresh ["openid"; "drop"] ["web"]);
@@ -295,13 +305,14 @@ Qed.
 
 Lemma unissuable_is_error cl r s c subj styp actor req scopes aud :
   op_unconfused (Exchange r c subj styp actor req scopes aud) = true ->
-  C15_spec.issuable req && negb (string_in "veto" scopes) && subj_live (fst s) styp subj && actor_live (fst s) actor = false ->
+  C15_spec.issuable (policy (fst s)) req && negb (string_in "veto" scopes) && subj_live (fst s) styp subj && actor_live (fst s) actor = false ->
   exists st, snd (exchange cl r s c subj styp actor req scopes aud) = OErr st true /\ C15_spec.is_error st = true.
 Proof.
   intros U N. pose proof (exchange_shape cl r s c subj styp actor req scopes aud) as SH. cbn zeta in SH.
   destruct SH as [(i & a & rt & lv & sc & sto & X)|SH]; [exfalso|exact SH].
   destruct (exchange cl r s c subj styp actor req scopes aud) as [s' x] eqn:E. cbn [snd] in X. subst x.
   destruct (exchange_live _ _ _ _ _ _ _ _ _ _ _ _ _ _ _ _ _ U E) as [SL AL].
-  destruct s as [g nx]. apply exchange_ok_full in E as (k & id & ssub & aid & asub & atyp & _ & _ & _ & V & SR).
-  cbn [fst] in *. rewrite SL, AL, V in N. unfold success_result in SR. destruct req; discriminate.
+  destruct s as [g nx]. pose proof (exchange_ok_issuable _ _ _ _ _ _ _ _ _ _ _ _ _ _ _ _ _ _ E) as IS.
+  apply exchange_ok_full in E as (k & id & ssub & aid & asub & atyp & _ & _ & _ & V & SR).
+  cbn [fst] in *. rewrite SL, AL, V, IS in N. discriminate.
 Qed.
